@@ -103,6 +103,9 @@ InitLink ==
 Ix(n) == 0..n \cup {OUT}
 AclWide == [Cfg0 EXCEPT !.nRules = 3, !.nIp = 2, !.nWc = 1, !.nPort = 2, !.nProto = 2]
 AclNarrow == [Cfg0 EXCEPT !.nRules = 1]
+\* skewed configuration: the lists have DIFFERENT lengths (more wildcards than addresses, more ports than protocols), so
+\* that a field encoded or bounded with another field's list shows
+AclSkew == [Cfg0 EXCEPT !.nRules = 2, !.nIp = 1, !.nWc = 3, !.nPort = 3, !.nProto = 1]
 InitAcl ==
     /\ kind = "acl"
     /\ \/ \E as \in {<<1, 0>>, <<2, 2>>}, si \in Ix(2), di \in Ix(2), sw \in Ix(1), dw \in Ix(1),
@@ -115,6 +118,11 @@ InitAcl ==
             pr \in Ix(0) :
             /\ cfg = AclNarrow
             /\ truth = [Truth0 EXCEPT !.exists = TRUE, !.nodeOn = TRUE, !.rule = TRUE, !.action = a,
+                                      !.sIp = si, !.dIp = di, !.sWc = sw, !.dWc = dw, !.sPort = sp, !.dPort = dp,
+                                      !.proto = pr]
+       \/ \E si \in Ix(1), di \in Ix(1), sw \in Ix(3), dw \in Ix(3), sp \in {0, 3}, dp \in {0, 3}, pr \in Ix(1) :
+            /\ cfg = [AclSkew EXCEPT !.slot = 1]
+            /\ truth = [Truth0 EXCEPT !.exists = TRUE, !.nodeOn = TRUE, !.rule = TRUE, !.action = 2,
                                       !.sIp = si, !.dIp = di, !.sWc = sw, !.dWc = dw, !.sPort = sp, !.dPort = dp,
                                       !.proto = pr]
        \/ \E sl \in 0..2, ex \in BOOLEAN, on \in BOOLEAN, ru \in BOOLEAN :
